@@ -20,7 +20,9 @@
 (*                                                                         *)
 (* Mode "noise": value ids of a parameter: 1 = not given, 2 = given and     *)
 (* non-neutral, 3 = given as the neutral value (0.0); eff_noise: 1 = none,  *)
-(* 2 = one 2x2 operator, 3 = two 2x2 operators, 4 = one 3x3 operator.       *)
+(* 2 = one 2x2 operator, 3 = two 2x2 operators, 4 = one 3x3 operator,       *)
+(* 5 = one 2x2 operator whose entries have tiny imaginary / real parts       *)
+(* (1+5e-9j, 5e-9+1j, 1e-12j, -1e-300j: exactly representable payloads).     *)
 (* Mode "sim": a SimConfig is a set of noise types (one value per type:     *)
 (* 1 = absent, 2 = present) followed by one value per parameter:            *)
 (* 1 = legacy default of SimConfig (non-zero), 2 = custom non-zero value,   *)
@@ -56,7 +58,7 @@ PI(name) == CHOOSE i \in 1..NP : P[i] = name
 
 (* ------------------------------ mode "noise" ----------------------------- *)
 DomN(i) ==
-  CASE P[i] = "eff_noise" -> 1..4
+  CASE P[i] = "eff_noise" -> 1..5
     [] P[i] \in {"runs", "samples_per_run", "laser_waist", "with_leakage"} -> 1..2
     [] OTHER -> IF P[i] \in Zeroable THEN 1..3 ELSE 1..2
 
